@@ -97,7 +97,7 @@ example : spec.tagsOK = true := by decide
 example : (match spec.unpack wire with | .ok _ => true | _ => false) = true := by decide
 -- … the history leaves more behind than the input has (both subfields of 55, a longer field 2) …
 example : ((MsgObj.run spec spec.newMsg populate).content spec [55]).fields.length = 1 ∧
-    (MsgObj.run spec spec.newMsg populate).sortedIds = [0, 2, 55] := by decide
+    (MsgObj.run spec spec.newMsg populate).sortedIds = [0, 1, 2, 55] := by decide
 -- … and after Unpack the message reports what a new message reports
 example : (MsgObj.run spec spec.newMsg (populate ++ [.unpack wire])).sortedIds = [0, 1, 2, 55] ∧
     (MsgObj.run spec spec.newMsg [.unpack wire]).sortedIds = [0, 1, 2, 55] := by decide
